@@ -1,11 +1,41 @@
 package main
 
 // C05 R-6: reflect kind discipline in package runtime (the rule itself is in c04k.go).
+// C05 R-7: the context watcher of the run driver (C11 R-3, re-used): its stop channel is closed on
+// every return path and never twice — a second close is a host panic ("close of closed channel")
+// instead of the documented return value (added after seeded change C05-2).
+
+import "golang.org/x/tools/go/cfg"
 
 func init() {
 	if p := registry["C05"]; p != nil {
 		run := p.run
-		p.run = func(r *Run) { run(r); reflectKindRule(r, "R-6", "internal/runtime") }
-		p.explain += " R-6: in every clause of a switch on X.Kind() in package runtime, the kind-restricted reflect methods called on X are defined for every kind the clause lists; an unclassified reflect panic there is a fatal error, i.e. a host panic."
+		p.run = func(r *Run) {
+			run(r)
+			reflectKindRule(r, "R-6", "internal/runtime")
+			c05WatcherRule(r)
+		}
+		p.explain += " R-6: in every clause of a switch on X.Kind() in package runtime, the kind-restricted reflect methods called on X are defined for every kind the clause lists; an unclassified reflect panic there is a fatal error, i.e. a host panic. R-7: the run driver closes the watcher's stop channel on every return path and never twice."
 	}
+}
+
+func c05WatcherRule(r *Run) {
+	a := c11Resolve(r.P)
+	if !c11Need(r, "R-7", a) {
+		return
+	}
+	sub := NewRun("C11", r.Tier, r.P)
+	x := &c11{r: sub, a: a, info: a.info, poll: map[*cfg.Block]bool{}}
+	x.lc = r.P.CFGOf(a.loop)
+	x.disp, _ = x.lc.Locate(a.dispatch.Tag)
+	x.r3()
+	n := 0
+	for _, o := range sub.Obls {
+		if o.Rule == "R-3" {
+			o.Rule = "R-7"
+			r.Obls = append(r.Obls, o)
+			n++
+		}
+	}
+	r.Require("R-7", 3)
 }
